@@ -2753,3 +2753,164 @@ Proof.
   - unfold sub. apply Forall_forall. intros x Hx. apply in_map_iff in Hx as [k [<- Hk]].
     apply (hbranch_good st inter ws k (S d)).
 Qed.
+
+(* ============================================================================================== *)
+(* 14. tree_to_dot: every vertex / edge carries exactly the attributes its own node prescribes *)
+
+Lemma slookup_sset d k v k2 : slookup k2 (sset d k v) = if str_eqb k2 k then Some v else slookup k2 d.
+Proof.
+  induction d as [|[k' v'] d IH]; cbn [sset slookup].
+  - reflexivity.
+  - destruct (str_eqb k k') eqn:E.
+    + apply str_eqb_eq in E. subst k'. cbn [slookup]. destruct (str_eqb k2 k); reflexivity.
+    + cbn [slookup]. destruct (str_eqb k2 k') eqn:E2; [|exact IH].
+      apply str_eqb_eq in E2. subst k'. rewrite str_eqb_sym, E. reflexivity.
+Qed.
+
+Lemma slookup_none k d : ~ In k (map fst d) -> slookup k d = None.
+Proof.
+  induction d as [|[k' v'] d IH]; intros H; cbn; [reflexivity|].
+  destruct (str_eqb k k') eqn:E.
+  - apply str_eqb_eq in E. subst. exfalso. apply H. left. reflexivity.
+  - apply IH. intros Hin. apply H. right. exact Hin.
+Qed.
+
+Lemma slookup_supdate u : forall d k, NoDup (map fst u) ->
+  slookup k (supdate d u) = match slookup k u with Some v => Some v | None => slookup k d end.
+Proof.
+  unfold supdate. induction u as [|[k' v'] u IH]; intros d k ND; cbn [fold_left slookup fst snd]; [reflexivity|].
+  inversion ND; subst. rewrite IH by assumption. rewrite slookup_sset.
+  destruct (str_eqb k k') eqn:E.
+  - apply str_eqb_eq in E. subst k'. rewrite slookup_none by assumption. reflexivity.
+  - reflexivity.
+Qed.
+
+Lemma sset_keys d k v k2 : In k2 (map fst (sset d k v)) <-> k2 = k \/ In k2 (map fst d).
+Proof.
+  induction d as [|[k' v'] d IH]; cbn [sset map fst In].
+  - split; [intros [<-|[]]; left; reflexivity|intros [->|[]]; left; reflexivity].
+  - destruct (str_eqb k k') eqn:E; cbn [map fst In].
+    + apply str_eqb_eq in E. subst k'. split; [intros [<-|H]; [left; reflexivity|right; right; exact H]|].
+      intros [->|[<-|H]]; [left; reflexivity|left; reflexivity|right; exact H].
+    + rewrite IH. split; [intros [H|[H|H]]; auto|intros [H|[H|H]]; auto].
+Qed.
+
+Lemma sset_nodup d k v : NoDup (map fst d) -> NoDup (map fst (sset d k v)).
+Proof.
+  induction d as [|[k' v'] d IH]; intros ND; cbn [sset map fst].
+  - constructor; [intros []|constructor].
+  - inversion ND; subst. destruct (str_eqb k k') eqn:E; cbn [map fst].
+    + apply str_eqb_eq in E. subst k'. constructor; assumption.
+    + constructor; [|apply IH; assumption]. intros Hin. apply sset_keys in Hin as [->|Hin]; [|contradiction].
+      rewrite str_eqb_refl in E. discriminate.
+Qed.
+
+Lemma supdate_nodup u : forall d, NoDup (map fst d) -> NoDup (map fst (supdate d u)).
+Proof.
+  unfold supdate. induction u as [|[k v] u IH]; intros d ND; cbn [fold_left]; [exact ND|].
+  apply IH. apply sset_nodup. exact ND.
+Qed.
+
+Lemma slookup_in k v d : NoDup (map fst d) -> In (k, v) d -> slookup k d = Some v.
+Proof.
+  induction d as [|[k' v'] d IH]; intros ND Hin; [destruct Hin|]. cbn [slookup]. inversion ND; subst.
+  destruct Hin as [E|Hin].
+  - inversion E; subst. rewrite str_eqb_refl. reflexivity.
+  - destruct (str_eqb k k') eqn:E; [|apply IH; assumption].
+    apply str_eqb_eq in E. subst k'. exfalso. apply H1. apply in_map_iff. exists (k, v). split; [reflexivity|exact Hin].
+Qed.
+
+Lemma slookup_some_in k v d : slookup k d = Some v -> In (k, v) d.
+Proof.
+  induction d as [|[k' v'] d IH]; cbn [slookup]; [discriminate|].
+  destruct (str_eqb k k') eqn:E.
+  - apply str_eqb_eq in E. subst. intros H. inversion H; subst. left. reflexivity.
+  - intros H. right. apply IH. exact H.
+Qed.
+
+(* a dictionary whose lookups are the prescribed ones is exact *)
+Lemma dict_exact_of_lookup own default keys obs :
+  NoDup (map fst obs) -> (forall k, slookup k obs = prescribed own default k) ->
+  dict_exact own default keys obs = true.
+Proof.
+  intros ND HL. unfold dict_exact. rewrite (proj2 (nodup_str_NoDup _) ND). cbn [andb].
+  apply andb_true_iff. split; apply forallb_forall.
+  - intros [k v] Hin. cbn [fst snd]. rewrite <- HL, (slookup_in k v obs ND Hin). cbn. apply str_eqb_refl.
+  - intros k _. rewrite <- HL. destruct (slookup k obs) as [v|] eqn:E; [|reflexivity].
+    apply slookup_some_in in E. apply existsb_exists. exists (k, v). split; [exact E|apply str_eqb_refl].
+Qed.
+
+Lemma given_nonempty o c : given o = Some c -> c <> [].
+Proof. destruct o as [[|x s]|]; cbn; intros H; inversion H; subst; discriminate. Qed.
+
+Lemma node_style0_lookup o k : slookup k (node_style0 o) = node_default o k.
+Proof.
+  unfold node_style0, node_default, supdate.
+  destruct (given (do_node_colour o)) as [c|]; destruct (given (do_node_shape o)) as [s|];
+    cbn [fold_left sset slookup fst snd];
+    repeat match goal with
+           | |- context [str_eqb ?a ?b] =>
+               let E := fresh "E" in destruct (str_eqb a b) eqn:E;
+               [apply str_eqb_eq in E; try subst k; try discriminate|]
+           end; cbn [slookup];
+    repeat match goal with H : str_eqb ?a ?b = _ |- context [str_eqb ?a ?b] => rewrite H end;
+    try reflexivity; try discriminate.
+Qed.
+
+Lemma node_style0_nodup o : NoDup (map fst (node_style0 o)).
+Proof.
+  unfold node_style0, supdate.
+  destruct (given (do_node_colour o)); destruct (given (do_node_shape o)); cbn;
+    repeat constructor; cbn; intros H; repeat destruct H as [H|H]; try discriminate; try contradiction.
+Qed.
+
+Lemma edge_style0_lookup o k : slookup k (edge_style0 o) = edge_default o k.
+Proof.
+  unfold edge_style0, edge_default. destruct (given (do_edge_colour o)); cbn [slookup];
+    destruct (str_eqb k s_color); reflexivity.
+Qed.
+
+Lemma filter_no_label d :
+  ~ In s_label (map fst d) -> filter (fun kv : str * str => negb (str_eqb (fst kv) s_label)) d = d.
+Proof.
+  induction d as [|[k v] d IH]; intros H; [reflexivity|]. cbn [filter fst].
+  destruct (str_eqb k s_label) eqn:E.
+  - apply str_eqb_eq in E. subst. exfalso. apply H. left. reflexivity.
+  - cbn [negb]. f_equal. apply IH. intros Hin. apply H. right. exact Hin.
+Qed.
+
+Theorem dot_attrs_exact o t :
+  styles_wf t = true -> prop_C18_attrs o t (dot_vertex_attrs o t) (dot_edge_attrs o t) = true.
+Proof.
+  intros HW. unfold styles_wf in HW. rewrite forallb_forall in HW.
+  unfold prop_C18_attrs, dot_vertex_attrs, dot_edge_attrs. apply andb_true_iff. split.
+  - apply all2_map_r. intros x Hx. specialize (HW x Hx).
+    apply andb_true_iff in HW as [HW HL]. apply andb_true_iff in HW as [HN _].
+    apply nodup_str_NoDup in HN. apply negb_true_iff in HL.
+    unfold vertex_attrs_ok, vertex_attrs. cbn [slookup]. rewrite str_eqb_refl. cbn [opt_eqb].
+    rewrite str_eqb_refl. cbn [andb filter fst]. rewrite str_eqb_refl. cbn [negb].
+    set (own := if do_node_attr o then node_sty x else []).
+    assert (HNo : NoDup (map fst own)) by (unfold own; destruct (do_node_attr o); [exact HN|constructor]).
+    assert (HLo : ~ In s_label (map fst own)).
+    { unfold own. destruct (do_node_attr o); [|intros []]. intros Hin.
+      assert (existsb (str_eqb s_label) (map fst (node_sty x)) = true); [|congruence].
+      apply existsb_exists. exists s_label. split; [exact Hin|apply str_eqb_refl]. }
+    rewrite filter_no_label.
+    + apply dict_exact_of_lookup.
+      * apply supdate_nodup. apply node_style0_nodup.
+      * intros k. rewrite slookup_supdate by exact HNo. unfold prescribed. rewrite node_style0_lookup. reflexivity.
+    + intros Hin. apply in_map_iff in Hin as [[k v] [Ek Hin]]. cbn [fst] in Ek. subst k.
+      pose proof (slookup_in s_label v _ (supdate_nodup own _ (node_style0_nodup o)) Hin) as HS.
+      rewrite slookup_supdate in HS by exact HNo. rewrite (slookup_none s_label own HLo) in HS.
+      rewrite node_style0_lookup in HS. unfold node_default in HS. cbn in HS. discriminate.
+  - apply all2_map_r. intros x Hx. assert (Hx' : In x (pre (compact t))).
+    { destruct (pre (compact t)); [destruct Hx|right; exact Hx]. }
+    specialize (HW x Hx'). apply andb_true_iff in HW as [HW _]. apply andb_true_iff in HW as [_ HE].
+    apply nodup_str_NoDup in HE.
+    unfold edge_attrs_ok, edge_attrs.
+    set (own := if do_edge_attr o then edge_sty x else []).
+    assert (HNo : NoDup (map fst own)) by (unfold own; destruct (do_edge_attr o); [exact HE|constructor]).
+    apply dict_exact_of_lookup.
+    + apply supdate_nodup. unfold edge_style0. destruct (given (do_edge_colour o)); cbn; repeat constructor. intros [].
+    + intros k. rewrite slookup_supdate by exact HNo. unfold prescribed. rewrite edge_style0_lookup. reflexivity.
+Qed.
